@@ -6,6 +6,8 @@ package harness
 // outcome.
 
 import (
+	"errors"
+	"sync/atomic"
 	"fmt"
 	"sort"
 	"strings"
@@ -27,6 +29,35 @@ type c03Case struct {
 	WS       bool `json:"ws,omitempty"` // WebSocket transport (RFC 7395 framing, no STARTTLS step)
 	// server behaviour
 	Script peer.Script `json:"script"`
+	// WFault: the client's own write of this request fails in a wrapped Transport (TCP only): "error" = nothing written,
+	// "partial" = half of the bytes, then the error. Steps: auth bind session enable.
+	WFault     string `json:"wfault,omitempty"`
+	WFaultMode string `json:"wfault_mode,omitempty"`
+}
+
+// <starttls/> is not among them: the library ignores the result of that write, and with a server that never saw the
+// request and therefore stays silent Connect blocks. The statement quantifies over what the server answers, not over
+// client-side write failures, so that is recorded as an observation in DESIGN.md and not asserted here.
+// <resume/> is not among them either: after a failed write of it the library goes on to bind a fresh session, which the
+// statement allows ("either a matching resumption or a bind result").
+var c03WriteSteps = []string{"auth", "bind", "session", "enable"}
+
+// c03WriteStep names the negotiation request a client write carries ("" = none of them).
+func c03WriteStep(p []byte) string {
+	s := string(p)
+	switch {
+	case strings.HasPrefix(s, "<starttls"):
+		return "starttls"
+	case strings.HasPrefix(s, "<auth"):
+		return "auth"
+	case strings.HasPrefix(s, "<enable"):
+		return "enable"
+	case strings.HasPrefix(s, "<iq") && strings.Contains(s, peer.NSBind):
+		return "bind"
+	case strings.HasPrefix(s, "<iq") && strings.Contains(s, peer.NSSession):
+		return "session"
+	}
+	return ""
 }
 
 var c03Steps = []string{"open1", "starttls", "tls", "open2", "auth", "open3", "resume", "bind", "session", "enable"}
@@ -90,6 +121,10 @@ func genC03(t *rapid.T) c03Case {
 			s.Dev[step] = d
 		}
 	}
+	if !c.WS && rapid.IntRange(0, 4).Draw(t, "wfault") == 0 {
+		c.WFault = rapid.SampledFrom(c03WriteSteps).Draw(t, "wfaultStep")
+		c.WFaultMode = rapid.SampledFrom([]string{"error", "partial"}).Draw(t, "wfaultMode")
+	}
 	return c
 }
 
@@ -101,6 +136,9 @@ func genC03(t *rapid.T) c03Case {
 func c03Model(c c03Case, sessionSent bool) (steps []string, success bool, resumed bool) {
 	s := c.Script
 	dev := func(st string) bool {
+		if st == c.WFault && !c.WS {
+			return true // the request never leaves the client in one piece: the server does not see this step
+		}
 		steps = append(steps, st)
 		_, has := s.Dev[st]
 		return has
@@ -157,6 +195,9 @@ func runC03(c c03Case) vh.Result {
 		faultStep = wantSteps[len(wantSteps)-1]
 		if _, has := c.Script.Dev[faultStep]; !has {
 			faultStep = "tls-unavailable"
+			if c.WFault != "" && !c.WS {
+				faultStep = "write-" + c.WFault
+			}
 		}
 	}
 	nonDefault := len(c.Script.Variant) > 0
@@ -237,6 +278,24 @@ func runC03(c c03Case) vh.Result {
 		res.Fail("harness", "NewClient: %v", err)
 		return res
 	}
+	// The wrapper goes in before any connection is made (a Session keeps the Transport it was created with across
+	// resumptions); the fault is armed once the prior connection is over.
+	var wfired, warmed atomic.Bool
+	if c.WFault != "" && !c.WS {
+		wrap := &stubTransport{inner: xmpp.VerifGetTransport(cl)}
+		wrap.writeFault = func(p []byte, inner xmpp.Transport) (bool, int, error) {
+			if !warmed.Load() || wfired.Load() || c03WriteStep(p) != c.WFault {
+				return false, 0, nil
+			}
+			wfired.Store(true)
+			n := 0
+			if c.WFaultMode == "partial" {
+				n, _ = inner.Write(p[:len(p)/2])
+			}
+			return true, n, errors.New("injected write failure")
+		}
+		xmpp.VerifSetTransport(cl, wrap)
+	}
 	if c.Prior {
 		if (!c.Script.OfferTLS || c.WS) && !c.Insecure {
 			res.Excluded = true // no resumable state can exist: the first connection cannot be made
@@ -252,6 +311,7 @@ func runC03(c c03Case) vh.Result {
 			return res
 		}
 	}
+	warmed.Store(true)
 	statesBefore, _, _ := rec.snapshot()
 	type connRes struct{ err error }
 	done := make(chan connRes, 1)
@@ -287,13 +347,23 @@ func runC03(c c03Case) vh.Result {
 	if cerr == nil {
 		go func() { _ = cl.Disconnect() }()
 	}
+	if wfired.Load() {
+		res.Label("client-write-fault")
+	}
 	if c.Script.Session == "optional" {
-		for _, st := range o.Steps {
+		sess := append([]string(nil), o.Steps...)
+		if wfired.Load() && c.WFault == "session" {
+			sess = append(sess, "session") // the client did open the optional session: its request is the one that failed
+		}
+		for _, st := range sess {
 			if st == "session" {
 				wantSteps, wantOK, wantResumed = c03Model(c, true)
 				faultStep = ""
 				if !wantOK && len(wantSteps) > 0 {
 					faultStep = wantSteps[len(wantSteps)-1]
+					if _, has := c.Script.Dev[faultStep]; !has && c.WFault != "" {
+						faultStep = "write-" + c.WFault
+					}
 				}
 			}
 		}
@@ -370,7 +440,7 @@ func devString(m map[string]peer.Dev) string {
 
 var c03 = vh.Define(&vh.Def[c03Case]{
 	Property: "C03", Name: "negotiation",
-	Rule: "scripts = client configuration (insecure allowed or not, resource given or not, stream management requested or not, resumable state obtained from a real earlier connection or not) x server features (STARTTLS offered/required/absent, session absent/mandatory/optional, SM offered or not, success variants with extra features and white space) x 0-2 deviations drawn from {step} x {failure / stanza error in 3 forms incl. echoed payload, stream error, unexpected element (8), malformed XML (5), truncated element (4), close, half-close}; a real Client connects to the scripted peer over TCP (with a real TLS handshake against an in-memory CA) or, in a quarter of the generated scripts, over WebSocket framing (no STARTTLS step); oracle = reference FSM of the negotiation: Connect nil iff no deviation hit a step the client reaches, exactly one SessionEstablished event iff success and none otherwise, the sequence of client requests equals the FSM's sequence and never goes beyond the faulty step, no request is already pending when the peer is about to answer the previous one (3 ms look-ahead, one-directional), Connect returns within the margin, no panic; non-trivial = the script contains a fault or a non-default success variant",
+	Rule: "scripts = client configuration (insecure allowed or not, resource given or not, stream management requested or not, resumable state obtained from a real earlier connection or not) x server features (STARTTLS offered/required/absent, session absent/mandatory/optional, SM offered or not, success variants with extra features and white space) x 0-2 deviations drawn from {step} x {failure / stanza error in 3 forms incl. echoed payload, stream error, unexpected element (8), malformed XML (5), truncated element (4), close, half-close}, and in a fifth of the TCP scripts the client's own write of one request (auth / bind / session / enable) fails in a wrapped Transport (nothing or half of it written), which counts as a fault at that step the server never sees; a real Client connects to the scripted peer over TCP (with a real TLS handshake against an in-memory CA) or, in a quarter of the generated scripts, over WebSocket framing (no STARTTLS step); oracle = reference FSM of the negotiation: Connect nil iff no deviation hit a step the client reaches, exactly one SessionEstablished event iff success and none otherwise, the sequence of client requests equals the FSM's sequence and never goes beyond the faulty step, no request is already pending when the peer is about to answer the previous one (3 ms look-ahead, one-directional), Connect returns within the margin, no panic; non-trivial = the script contains a fault or a non-default success variant",
 	Quick: 320, Thorough: 8000, Journal: true,
 	Gen: genC03, Run: runC03,
 })
